@@ -377,6 +377,12 @@ theorem hasFlag_orFlag_primary (f : Nat) : hasFlag (orFlag f flagUsevc) flagPrim
       have e : (f + 256) / 2 % 2 = f / 2 % 2 := by omega
       rw [e]
 
+theorem flags_aux (f : Nat) (b1 b2 : Bool) :
+    hasFlag (if b1 = true then orFlag (if b2 = true then orFlag f flagUsevc else f) flagEdns
+             else if b2 = true then orFlag f flagUsevc else f) flagPrimary = hasFlag f flagPrimary := by
+  cases b1 <;> cases b2 <;>
+    simp only [Bool.false_eq_true, ↓reduceIte, (hasFlag_orFlag_primary _).1, (hasFlag_orFlag_primary _).2]
+
 /-- `ARES_FLAG_PRIMARY` of a channel is decided by `ares_init_by_options` alone -/
 theorem finish_primary (a : Chan) (e : SysEnv) :
     hasFlag (finish a e).flags flagPrimary = hasFlag a.flags flagPrimary := by
@@ -387,14 +393,7 @@ theorem finish_primary (a : Chan) (e : SysEnv) :
     · exact (hasFlag_orFlag_primary _).2
     · rfl
   · simp only [applyDefaults, defaultFlags, sysconfigApply, sysconfigApplyG]
-    have key : ∀ (b : Bool), hasFlag (if b = true then orFlag a.flags flagUsevc else a.flags) flagPrimary =
-        hasFlag a.flags flagPrimary := by
-      intro b; cases b
-      · rfl
-      · exact (hasFlag_orFlag_primary _).1
-    split
-    · rw [(hasFlag_orFlag_primary _).2]; exact key _
-    · exact key _
+    exact flags_aux _ _ _
 
 /-- a freshly initialised channel whose servers the application supplied: `ares_dup` gives the same
     channel, through the CSV step -/
